@@ -170,6 +170,20 @@ Fixpoint count_common (fuel : nat) (ty : Z) (l : list av) (i size nc : Z) : Z :=
       end
   end.
 
+(* range_step_fits: the step from [from] to [to_] did not wrap and the span
+   from [first] to [to_] fits the type *)
+Definition range_step_fits (first from to_ delta : av) : option bool :=
+  match av_null (av_type delta) with
+  | Some zero =>
+      match av_cmp_single delta zero, av_sub to_ first with
+      | Some dir, Some span =>
+          match av_cmp_single to_ from, av_cmp_single span zero with
+          | Some c1, Some c2 => Some ((c1 =? dir) && (c2 =? dir))
+          | _, _ => None end
+      | _, _ => None end
+  | None => None
+  end.
+
 (* the second loop: Some (skipped, num_common) *)
 Fixpoint run_loop (fuel : nat) (args : list av) (size : Z) (has_delta : bool) (delta : av)
          (skipped nc : Z) : option (Z * Z) :=
@@ -188,7 +202,16 @@ Fixpoint run_loop (fuel : nat) (args : list av) (size : Z) (has_delta : bool) (d
       | None => None
       | Some l => match elem_eq l (skipz next args) with
                   | None => None
-                  | Some true => run_loop f args size has_delta delta next (nc + 1)
+                  | Some true =>
+                      if has_delta
+                      then match args, cur, l with
+                           | a0 :: _, c :: _, added :: _ =>
+                               match range_step_fits a0 c added delta with
+                               | Some true => run_loop f args size has_delta delta next (nc + 1)
+                               | Some false => Some (next, nc + 1)
+                               | None => None end
+                           | _, _, _ => None end
+                      else run_loop f args size has_delta delta next (nc + 1)
                   | Some false => Some (next, nc + 1)
                   end
       end
@@ -215,6 +238,13 @@ Definition convert_to_range (o : popts) (args : list av) (size : Z) : conv :=
       match dl with
       | None => CUnmod
       | Some delta =>
+          match (if e then Some true
+                 else match args with
+                      | a0 :: a1 :: _ => range_step_fits a0 a0 a1 delta
+                      | _ => None end) with
+          | None => CUnmod
+          | Some false => CNo
+          | Some true =>
           match run_loop (length args) args size (negb e) delta (incsize args) 1 with
           | None => CUnmod
           | Some (skipped, nc) =>
@@ -223,6 +253,7 @@ Definition convert_to_range (o : popts) (args : list av) (size : Z) : conv :=
               let used := 1 + hdz + incsize args in
               CYes (VRep nc hdz :: (if e then [] else [delta]) ++
                     firstn (Z.to_nat (incsize args)) args ++ [VSpc (skipped - used - 1)]) skipped
+          end
           end
       end
   end.
@@ -233,6 +264,47 @@ Definition convert_to_range (o : popts) (args : list av) (size : Z) : conv :=
    text starts with the four blanks) *)
 Definition pres := option (str * Z * Z * bool).
 Definition pav_t := popts -> list av -> Z -> option av -> pres.
+
+(* the loop over the elements of an array; acc does not contain the pending
+   separator; first = last_sep still is buffer-1 (in front of the bracket) *)
+Fixpoint print_array_loop (pav : pav_t) (fuel : nat) (o : popts) (elems : list av) (prev : option av)
+         (i n : Z) (acc : str) (first : bool) (bb : bool) (wrt cols awtl : Z) : pres :=
+  match fuel with
+  | O => None
+  | S f =>
+      if n <? i then Some (acc, wrt, cols, bb) else
+      match convert_to_range o elems (n + 1 - i) with
+      | CUnmod => None
+      | cv =>
+          let input := match cv with CYes c _ => c | _ => elems end in
+          match hd_type elems =? 97, pav o input cols prev with
+          | false, Some (t, tmp, cols1, false) =>
+              let '(brk_, cols2, awtl2) := lb_check (linelength o) cols1 tmp awtl in
+              let inc := match cv with CYes _ k => k | _ => next_arg_offset elems end in
+              let prev2 := nth_error elems (Z.to_nat (inc - 1)) in
+              let acc2 := if first then (if brk_ then [32; 32; 32; 32] ++ acc ++ t else acc ++ t)
+                          else acc ++ (if brk_ then nl4 else [32]) ++ t in
+              print_array_loop pav f o (skipz inc elems) prev2 (i + inc) n acc2 false
+                               (bb || (first && brk_)) (wrt + tmp + (if brk_ then 4 else 0) + 1)
+                               (cols2 + 1) awtl2
+          | _, _ => None
+          end
+      end
+  end.
+
+(* blank: the character in front of the bracket is a blank (a line break may
+   replace it) *)
+Definition print_array (pav : pav_t) (o : popts) (arg : list av) (cols : Z) (blank : bool) : pres :=
+  match arg with
+  | VArr _ n :: elems =>
+      if n =? 0 then Some ([91; 93], 2, cols + 3, false) else
+      match print_array_loop pav (S (length elems)) o elems None 1 n [91] true false 1 (cols + 1)
+                             (if (cols =? 0) || negb blank then 0 else 1) with
+      | Some (t, w, c, bb) => Some (t ++ [93], w, c + 1, bb)
+      | None => None
+      end
+  | _ => None
+  end.
 
 (* rtosc_print_range for a compressed, finite range *)
 Definition print_range (pav : pav_t) (o : popts) (arg : list av) (cols : Z) (prev : option av) : pres :=
@@ -276,49 +348,12 @@ Definition print_range (pav : pav_t) (o : popts) (arg : list av) (cols : Z) (pre
         | _ => None end
       else
         let head := print_d num ++ [120] in
-        match pav o rest (cols + len head) None with
+        match (match rest with
+               | VArr _ _ :: _ => print_array pav o rest (cols + len head) false   (* after the x *)
+               | _ => pav o rest (cols + len head) None end) with
         | Some (t, w, c, bb) =>
             Some ((if bb then removelast head ++ [10] else head) ++ t, len head + w, c, false)
         | None => None end
-  | _ => None
-  end.
-
-(* the loop over the elements of an array; acc does not contain the pending
-   separator; first = last_sep still is buffer-1 (in front of the bracket) *)
-Fixpoint print_array_loop (pav : pav_t) (fuel : nat) (o : popts) (elems : list av) (prev : option av)
-         (i n : Z) (acc : str) (first : bool) (bb : bool) (wrt cols awtl : Z) : pres :=
-  match fuel with
-  | O => None
-  | S f =>
-      if n <? i then Some (acc, wrt, cols, bb) else
-      match convert_to_range o elems (n + 1 - i) with
-      | CUnmod => None
-      | cv =>
-          let input := match cv with CYes c _ => c | _ => elems end in
-          match hd_type elems =? 97, pav o input cols prev with
-          | false, Some (t, tmp, cols1, false) =>
-              let '(brk_, cols2, awtl2) := lb_check (linelength o) cols1 tmp awtl in
-              let inc := match cv with CYes _ k => k | _ => next_arg_offset elems end in
-              let prev2 := nth_error elems (Z.to_nat (inc - 1)) in
-              let acc2 := if first then (if brk_ then [32; 32; 32; 32] ++ acc ++ t else acc ++ t)
-                          else acc ++ (if brk_ then nl4 else [32]) ++ t in
-              print_array_loop pav f o (skipz inc elems) prev2 (i + inc) n acc2 false
-                               (bb || (first && brk_)) (wrt + tmp + (if brk_ then 4 else 0) + 1)
-                               (cols2 + 1) awtl2
-          | _, _ => None
-          end
-      end
-  end.
-
-Definition print_array (pav : pav_t) (o : popts) (arg : list av) (cols : Z) : pres :=
-  match arg with
-  | VArr _ n :: elems =>
-      if n =? 0 then Some ([91; 93], 2, cols + 3, false) else
-      match print_array_loop pav (S (length elems)) o elems None 1 n [91] true false 1 (cols + 1)
-                             (if cols =? 0 then 0 else 1) with
-      | Some (t, w, c, bb) => Some (t ++ [93], w, c + 1, bb)
-      | None => None
-      end
   | _ => None
   end.
 
@@ -329,7 +364,7 @@ Fixpoint print_arg_val_f (fuel : nat) (o : popts) (args : list av) (cols : Z) (p
   | S f =>
       match args with
       | VRep _ _ :: _ => print_range (print_arg_val_f f) o args cols prev
-      | VArr _ _ :: _ => print_array (print_arg_val_f f) o args cols
+      | VArr _ _ :: _ => print_array (print_arg_val_f f) o args cols false
       | v :: _ => match print_scalar o v cols with
                   | Some (t, w, c) => Some (t, w, c, false)
                   | None => None end
@@ -337,6 +372,12 @@ Fixpoint print_arg_val_f (fuel : nat) (o : popts) (args : list av) (cols : Z) (p
       end
   end.
 Definition print_arg_val := print_arg_val_f 6.
+(* a value of the top-level list: blank = a separator has been written in front *)
+Definition print_arg_val_top (o : popts) (args : list av) (cols : Z) (prev : option av) (blank : bool) : pres :=
+  match args with
+  | VArr _ _ :: _ => print_array (print_arg_val_f 5) o args cols blank
+  | _ => print_arg_val o args cols prev
+  end.
 
 (* the loop of rtosc_print_arg_vals.  acc = text written so far without the
    pending separator, pend = a separator has been written at last_sep
@@ -354,7 +395,7 @@ Fixpoint print_vals_loop (fuel : nat) (o : popts) (args : list av) (prev : optio
           | CUnmod => None
           | cv =>
           let input := match cv with CYes c _ => c | _ => args end in
-          match print_arg_val o input cols prev with
+          match print_arg_val_top o input cols prev pend with
           | None => None
           | Some (t, tmp, cols1, bb) =>
               let '(brk_, cols2, awtl2) :=
